@@ -121,8 +121,12 @@ class BlockPartition(object):
     def add_partition_constraints(self):
         """
         Formulate the list of orthogonality constraints induced by the partitioning.
+        This method is run by the :class:`PEP` just before solving the problem.
+        It reinitializes the list_of_constraints attribute before filling it.
 
         """
+        self.list_of_constraints = list()
+
         for xi_decomposed in self.blocks_dict.values():
             for xj_decomposed in self.blocks_dict.values():
                 for k in range(self.d):
